@@ -133,3 +133,44 @@ def branch_subst(stmts):
                     isinstance(getattr(n, "_parent", None), ast.Assign)):
                 cnt[n.id] = cnt.get(n.id, 0) + 2
     return close_subst({k: v for k, v in val.items() if cnt[k] == 1})
+
+
+def fmt_norm(e):
+    """('template with {} placeholders', [argument texts]) for `"..%u.." % x`, f-strings,
+    `"..{}..".format(x)` and string concatenations of those / str(x); None if not a formatted string"""
+    import re
+    if isinstance(e, ast.Constant) and isinstance(e.value, str):
+        return e.value.replace("{", "{{").replace("}", "}}"), []
+    if isinstance(e, ast.BinOp) and isinstance(e.op, ast.Mod) and isinstance(e.left, ast.Constant) and isinstance(e.left.value, str):
+        args = list(e.right.elts) if isinstance(e.right, ast.Tuple) else [e.right]
+        tmpl = e.left.value.replace("{", "{{").replace("}", "}}")
+        tmpl, n = re.subn(r"%[-#0 +]*\d*(?:\.\d+)?[diouxXsr]", "{}", tmpl)
+        tmpl = tmpl.replace("%%", "%")
+        if n != len(args):
+            return None
+        return tmpl, [canon(a) for a in args]
+    if isinstance(e, ast.JoinedStr):
+        tmpl, args = "", []
+        for v in e.values:
+            if isinstance(v, ast.Constant):
+                tmpl += str(v.value).replace("{", "{{").replace("}", "}}")
+            elif isinstance(v, ast.FormattedValue) and v.format_spec is None and v.conversion in (-1, 115):
+                tmpl += "{}"
+                args.append(canon(v.value))
+            else:
+                return None
+        return tmpl, args
+    if isinstance(e, ast.Call) and isinstance(e.func, ast.Attribute) and e.func.attr == "format" and \
+            isinstance(e.func.value, ast.Constant) and isinstance(e.func.value.value, str) and not e.keywords:
+        tmpl = re.sub(r"\{\d*\}", "{}", e.func.value.value)
+        return tmpl, [canon(a) for a in e.args]
+    if isinstance(e, ast.Call) and canon(e.func) == "str" and len(e.args) == 1:
+        return "{}", [canon(e.args[0])]
+    if isinstance(e, ast.BinOp) and isinstance(e.op, ast.Add):
+        a, b = fmt_norm(e.left), fmt_norm(e.right)
+        if a is None or b is None:
+            return None
+        return a[0] + b[0], a[1] + b[1]
+    if isinstance(e, (ast.Name, ast.Attribute, ast.Call, ast.Subscript)):
+        return "{}", [canon(e)]
+    return None
